@@ -241,6 +241,7 @@ func Run(tier, replay string) {
 		permAll = 6
 	}
 	vs := trcheck.Generate(rep, "perms", permAll)
+	vs = append(vs, trcheck.Generate(rep, "layouts", permAll)...)
 	cs := trcheck.Run(vs)
 	discarded := 0
 	for _, c := range cs {
